@@ -53,7 +53,10 @@ const (
 	ShortProgram Class = "short-program"
 	Overflow     Class = "program-size-overflow"
 	FalseResult  Class = "false-result"
-	Unsupported  Class = "unsupported-vm"
+	// Panic is never admissible under the intended semantics; it only occurs in
+	// the Truncate64 model of the implementation (a recovered runtime panic).
+	Panic       Class = "unexpected(recovered panic)"
+	Unsupported Class = "unsupported-vm"
 )
 
 // Opcode values (copied by value from the documented table).
@@ -198,6 +201,19 @@ type Options struct {
 	// NOPs even when the parent runs expansion-reserved (what protocol/vm does).
 	// Default (false): the child inherits the rule.
 	ChildResetsExpansion bool
+	// Truncate64 models the implementation's handling of index-like operands:
+	// PICK/ROLL take the operand modulo 2^64 as a signed 64-bit integer (a
+	// non-positive offset is an index panic for PICK, a bad value for ROLL) and
+	// CHECKOUTPUT passes index and vm version modulo 2^64.
+	Truncate64 bool
+	// Alias models the implementation's memory behaviour instead of value
+	// semantics: stack items are Go slices shared exactly as protocol/vm shares
+	// them (arguments, state, program and context fields are the caller's
+	// slices; DUP-like ops share; LEFT/RIGHT/SUBSTR sub-slice; CAT/CATPUSHDATA
+	// append into the first operand's backing array when it has spare capacity;
+	// every "true" result is one shared one-byte slice).  The caller's buffers
+	// in Context are mutated accordingly.
+	Alias bool
 	// MaxSteps bounds the simulation (0 = 5,000,000).
 	MaxSteps int
 	// MaxWork bounds the total number of stack items recorded in step snapshots
@@ -220,13 +236,14 @@ type Step struct {
 	After     int64    // run limit after the step (when OK)
 
 	// annotations for generators / non-triviality rules
-	Pops          int   // refunding pops performed
-	BackJump      bool  // control went to an address <= PC
-	NPubKeys      int64 // CHECKMULTISIG: number of public keys (-1 otherwise / unknown)
-	AliasedSplice bool  // splice op on an item whose bytes are shared with another live item or a caller buffer
-	Wide64        bool  // PICK/ROLL/CHECKOUTPUT received an index-like operand that does not fit 63/64 bits
-	ChildRan      bool  // CHECKPREDICATE that started a child frame
-	ChildAllGas   bool  // ... with limit operand 0 ("all remaining")
+	Pops           int   // refunding pops performed
+	BackJump       bool  // control went to an address <= PC
+	NPubKeys       int64 // CHECKMULTISIG: number of public keys (-1 otherwise / unknown)
+	AliasedSplice  bool  // splice op on an item whose bytes are shared with another live item or a caller buffer
+	Wide64         bool  // PICK/ROLL/CHECKOUTPUT received an index-like operand that does not fit 63/64 bits
+	ChildExpansion bool  // inside a CHECKPREDICATE child of an expansion-reserved run: an expansion opcode or CHECKOUTPUT
+	ChildRan       bool  // CHECKPREDICATE that started a child frame
+	ChildAllGas    bool  // ... with limit operand 0 ("all remaining")
 }
 
 // Event is one element of the expected execution trace.
@@ -246,6 +263,7 @@ type Result struct {
 	Need           int64 // smallest limit for which no run-limit check on this path fails (valid when no RunLimit fault occurred)
 	LimitDependent bool  // a child frame was given "all remaining gas": the path depends on the limit
 	Truncated      bool  // MaxSteps reached (result meaningless)
+	TruePoisoned   bool  // Alias mode: the shared "true" byte string no longer reads 01 at the end of the run
 }
 
 // Has reports whether the fault set contains c.
@@ -421,6 +439,11 @@ type machine struct {
 	max     int
 	work    int
 	maxWork int
+
+	reserved0 bool   // the top-level frame runs expansion-reserved
+	trueBytes []byte // Alias mode: the one shared "true" value
+	trueID    int
+	panicked  bool
 }
 
 type frame struct {
@@ -451,12 +474,30 @@ type failState struct {
 
 func (m *machine) fresh() int { m.nextID++; return m.nextID }
 
-func clone(b []byte) []byte { return append([]byte{}, b...) }
+// clone is an independent copy with no spare capacity.
+func clone(b []byte) []byte {
+	out := make([]byte, len(b))
+	copy(out, b)
+	return out
+}
 
-func snapshot(st []item) [][]byte {
+// own returns what a value-semantics machine keeps of a caller's or another
+// item's bytes (a copy); the Alias model keeps the slice itself.
+func (m *machine) own(b []byte) []byte {
+	if m.opt.Alias {
+		return b
+	}
+	return clone(b)
+}
+
+func (m *machine) snapshot(st []item) [][]byte {
 	out := make([][]byte, len(st))
 	for i, it := range st {
-		out[i] = it.b
+		if m.opt.Alias { // bytes may change later
+			out[i] = clone(it.b)
+		} else {
+			out[i] = it.b
+		}
 	}
 	return out
 }
@@ -500,20 +541,28 @@ func Run(ctx *Context, gasLimit int64, opt Options) *Result {
 	f.st = &Step{} // scratch for pop counters during setup
 	for _, s := range ctx.StateData {
 		f.apply(8 + int64(len(s)))
-		f.alt = append(f.alt, item{clone(s), m.fresh()})
+		f.alt = append(f.alt, item{m.own(s), m.fresh()})
 	}
 	for _, a := range ctx.Arguments {
 		f.apply(8 + int64(len(a)))
-		f.data = append(f.data, item{clone(a), m.fresh()})
+		f.data = append(f.data, item{m.own(a), m.fresh()})
 	}
-	m.nextID += 8 // context fields: entry id, asset id, output id, sighash
+	m.nextID += 8 // context fields: entry id, asset id, output id, sighash; the shared "true"
 	m.callerN = m.nextID + 1
+	m.trueID = m.callerN - 5
+	m.trueBytes = []byte{1}
+	m.reserved0 = f.reserved
 	if f.bad() {
 		res.Faults = sortedClasses(f.faults)
 		return res
 	}
 	ok := f.run()
+	res.TruePoisoned = m.trueBytes[0] != 1
 	if res.Truncated {
+		return res
+	}
+	if m.panicked {
+		res.Faults = []Class{Panic}
 		return res
 	}
 	if !ok {
@@ -549,7 +598,10 @@ func (f *frame) run() bool {
 			}
 			return false
 		}
-		st := &Step{Depth: f.depth, PC: f.pc, Op: ins.Op, Data: ins.Data, Limit: f.limit, NPubKeys: -1}
+		st := &Step{Depth: f.depth, PC: f.pc, Op: ins.Op, Data: clone(ins.Data), Limit: f.limit, NPubKeys: -1}
+		if f.depth > 0 && m.reserved0 && (IsExpansion(ins.Op) || ins.Op == OpCheckOutput) {
+			st.ChildExpansion = true
+		}
 		f.st = st
 		m.res.Steps = append(m.res.Steps, st)
 		m.res.Events = append(m.res.Events, Event{Step: st})
@@ -579,8 +631,8 @@ func (f *frame) run() bool {
 		}
 		f.pc = f.next
 		st.OK = true
-		st.Stack = snapshot(f.data)
-		st.Alt = snapshot(f.alt)
+		st.Stack = m.snapshot(f.data)
+		st.Alt = m.snapshot(f.alt)
 		st.After = f.limit
 		if !st.Expansion {
 			m.res.Events = append(m.res.Events, Event{Post: true, Step: st})
@@ -675,7 +727,17 @@ func (f *frame) pushNum(n *big.Int, deferred bool) {
 	f.pushNew(EncodeNum(n), deferred)
 }
 
-func (f *frame) pushBool(v bool, deferred bool) { f.pushNew(EncodeBool(v), deferred) }
+func (f *frame) pushBool(v bool, deferred bool) {
+	if v { // every true result is "the" true value: splicing it concerns every later true
+		if f.m.opt.Alias {
+			f.push(f.m.trueBytes, f.m.trueID, deferred)
+		} else {
+			f.push([]byte{1}, f.m.trueID, deferred)
+		}
+		return
+	}
+	f.pushNew([]byte{}, deferred)
+}
 
 // need reports (and records as underflow) whether the data stack holds n items.
 func (f *frame) need(n int) bool {
@@ -857,8 +919,26 @@ func (f *frame) exec(ins Instr) {
 			return
 		}
 		if n.Cmp(maxI64) >= 0 { // n+1 is not a representable count
-			f.fault(BadValue)
 			f.st.Wide64 = true
+		}
+		if m.opt.Truncate64 {
+			v := int64(new(big.Int).And(n, maxU64).Uint64())
+			switch off := v + 1; {
+			case v == math.MaxInt64:
+				f.fault(BadValue)
+			case int64(len(f.data)) < off:
+				f.fault(Underflow)
+			case off < 1: // indexes past the end of the stack
+				f.fault(Panic)
+				m.panicked = true
+			default:
+				it := f.data[int64(len(f.data))-off]
+				f.push(it.b, it.id, false)
+			}
+			return
+		}
+		if n.Cmp(maxI64) >= 0 {
+			f.fault(BadValue)
 		}
 		if n.Cmp(big.NewInt(int64(len(f.data)))) >= 0 {
 			f.fault(Underflow)
@@ -873,8 +953,22 @@ func (f *frame) exec(ins Instr) {
 			return
 		}
 		if n.Cmp(maxI64) >= 0 {
-			f.fault(BadValue)
 			f.st.Wide64 = true
+		}
+		if m.opt.Truncate64 {
+			v := int64(new(big.Int).And(n, maxU64).Uint64())
+			switch off := v + 1; {
+			case v == math.MaxInt64 || off < 1:
+				f.fault(BadValue)
+			case int64(len(f.data)) < off:
+				f.fault(Underflow)
+			default:
+				f.rotate(int(off), 1)
+			}
+			return
+		}
+		if n.Cmp(maxI64) >= 0 {
+			f.fault(BadValue)
 		}
 		if n.Cmp(big.NewInt(int64(len(f.data)))) >= 0 {
 			f.fault(Underflow)
@@ -917,7 +1011,8 @@ func (f *frame) exec(ins Instr) {
 		if op == OpCatPushdata {
 			tail = PushData(b.b)
 		}
-		f.pushNew(append(clone(a.b), tail...), true)
+		// the result may live in a's backing array: it keeps a's identity for the aliasing bookkeeping
+		f.push(append(m.own(a.b), tail...), a.id, true)
 	case OpSubstr:
 		f.apply(4)
 		size, oks := f.popI64(true)
@@ -936,7 +1031,7 @@ func (f *frame) exec(ins Instr) {
 			f.fault(BadValue)
 			return
 		}
-		f.push(clone(str.b[off:off+size]), str.id, true)
+		f.push(m.own(str.b[off:off+size]), str.id, true)
 	case OpLeft, OpRight:
 		f.apply(4)
 		size, oks := f.popI64(true)
@@ -955,9 +1050,9 @@ func (f *frame) exec(ins Instr) {
 			return
 		}
 		if op == OpLeft {
-			f.push(clone(str.b[:size]), str.id, true)
+			f.push(m.own(str.b[:size]), str.id, true)
 		} else {
-			f.push(clone(str.b[l-size:]), str.id, true)
+			f.push(m.own(str.b[l-size:]), str.id, true)
 		}
 	case OpSize:
 		f.apply(1)
@@ -1163,7 +1258,7 @@ func (f *frame) exec(ins Instr) {
 			f.fault(NoContext)
 			return
 		}
-		f.push(clone(ctx.TxSigHash()), m.callerN-1, false)
+		f.push(m.own(ctx.TxSigHash()), m.callerN-1, false)
 
 	// ---- introspection
 	case OpCheckOutput:
@@ -1172,8 +1267,12 @@ func (f *frame) exec(ins Instr) {
 		// index, amount and vm version are 64-bit quantities: a number that does not fit is a bad value
 		ver, ok2 := f.popNum(true)
 		if ok2 && ver.Cmp(maxU64) > 0 {
-			f.fault(BadValue)
 			f.st.Wide64 = true
+			if m.opt.Truncate64 {
+				ver = new(big.Int).And(ver, maxU64)
+			} else {
+				f.fault(BadValue)
+			}
 		}
 		asset, ok3 := f.pop(true)
 		amount, ok4 := f.popNum(true)
@@ -1182,8 +1281,12 @@ func (f *frame) exec(ins Instr) {
 		}
 		index, ok5 := f.popNum(true)
 		if ok5 && index.Cmp(maxU64) > 0 {
-			f.fault(BadValue)
 			f.st.Wide64 = true
+			if m.opt.Truncate64 {
+				index = new(big.Int).And(index, maxU64)
+			} else {
+				f.fault(BadValue)
+			}
 		}
 		if ctx.CheckOutput == nil {
 			f.fault(NoContext)
@@ -1191,7 +1294,7 @@ func (f *frame) exec(ins Instr) {
 		if !(ok1 && ok2 && ok3 && ok4 && ok5) || f.bad() {
 			return
 		}
-		ok, cls := ctx.CheckOutput(index.Uint64(), amount.Uint64(), asset.b, ver.Uint64(), code.b, snapshot(f.alt), f.reserved)
+		ok, cls := ctx.CheckOutput(index.Uint64(), amount.Uint64(), asset.b, ver.Uint64(), code.b, m.snapshot(f.alt), f.reserved)
 		if cls != "" {
 			f.fault(cls)
 			return
@@ -1203,7 +1306,7 @@ func (f *frame) exec(ins Instr) {
 			f.fault(NoContext)
 			return
 		}
-		f.push(clone(*ctx.AssetID), m.callerN-2, true)
+		f.push(m.own(*ctx.AssetID), m.callerN-2, true)
 	case OpAmount:
 		f.apply(1)
 		if ctx.Amount == nil {
@@ -1213,7 +1316,7 @@ func (f *frame) exec(ins Instr) {
 		f.pushNum(new(big.Int).SetUint64(*ctx.Amount), true)
 	case OpProgram:
 		f.apply(1)
-		f.push(clone(ctx.Code), 1, true)
+		f.push(m.own(ctx.Code), 1, true)
 	case OpIndex:
 		f.apply(1)
 		if ctx.DestPos == nil {
@@ -1223,14 +1326,14 @@ func (f *frame) exec(ins Instr) {
 		f.pushNum(new(big.Int).SetUint64(*ctx.DestPos), true)
 	case OpEntryID:
 		f.apply(1)
-		f.push(clone(ctx.EntryID), m.callerN-3, true)
+		f.push(m.own(ctx.EntryID), m.callerN-3, true)
 	case OpOutputID:
 		f.apply(1)
 		if ctx.SpentOutputID == nil {
 			f.fault(NoContext)
 			return
 		}
-		f.push(clone(*ctx.SpentOutputID), m.callerN-4, true)
+		f.push(m.own(*ctx.SpentOutputID), m.callerN-4, true)
 	case OpBlockHeight:
 		f.apply(1)
 		if ctx.BlockHeight == nil {
@@ -1356,6 +1459,10 @@ func (f *frame) checkPredicate() {
 	f.st = st
 	if f.m.res.Truncated {
 		f.fault(RunLimit)
+		return
+	}
+	if f.m.panicked { // a runtime panic unwinds every frame
+		f.fault(Panic)
 		return
 	}
 	f.deferred -= child.limit + itemsCost(child.data) + itemsCost(child.alt)
